@@ -1218,6 +1218,12 @@ func (r *c19Run) trace(traceIdx int, tr c19Trace, chunks int) {
 	case len(winners) == 0 && uploads >= 2 && aborts == 0:
 		r.report("race.no-winner", key, fmt.Sprintf("%s: neither upload of the new name %s was accepted %v", key, name, statuses), replay)
 	}
+	if len(winners) == 0 && exists {
+		// what the upload endpoint leaves in the capture directory is there because an upload was accepted
+		// (and queued): a file of that name after only refused or aborted uploads blocks the name for good
+		// and is served by the download endpoint without ever having been queued
+		r.report("upload.leftover-file", key, fmt.Sprintf("%s %v: no upload of %s was accepted, yet the capture directory holds a file of that name afterwards (%d bytes: %s)", key, statuses, name, len(f.Data), c19Show(f.Data)), replay)
+	}
 	if len(winners) >= 1 {
 		match := false
 		for _, q := range winners {
